@@ -30,23 +30,23 @@ CHECKS = {
    note="the caller protocol is re-enacted by the harness on the bare queue (not through Database handles); the WAL write is a harness-side log; the 30 s timeout is outside the model"),
  "C04": dict(cat="model_checking", ref="DESIGN.md 3.9, 6 (C04)",
    tech="TLA+ reference spec Relational.tla explored by TLC (per-transition emission, VIEW hides history; -simulate random walks); every behaviour rendered to SQL and replayed on TurDB, results and full observation compared with the model",
-   text="Reopen and Checkpoint are stuttering actions of Relational.tla interleaved anywhere in the DML histories TLC explores (depth 3 quick / 4 thorough, plus random walks of 25-40 steps); after each, the full observation (scan, COUNT(*), primary-key, unique and range lookups) must equal the model's and later statements must behave as the model says; run with the WAL off and on",
+   text="Reopen and Checkpoint are stuttering actions of Relational.tla interleaved anywhere in the DML histories TLC explores (depth 3 quick / 4 thorough, plus action-weighted random walks of 12-20 steps in which reopen, checkpoint and DELETE-all motifs are frequent); after each, the full observation (scan, COUNT(*), primary-key, unique and range lookups) must equal the model's and later statements must behave as the model says; run with the WAL off and on",
    note="bounded domain (3 ids, a in {NULL,1,2}, b in {NULL,0,1,5}); quick replays a stratified seeded sample of the explored transitions plus random walks, thorough replays depth-4 transitions; renderer/normaliser in lib/relational.py trusted; open findings listed in known_findings.json by spec-defined signature"),
  "C05": dict(cat="model_checking", ref="DESIGN.md 3.9, 6 (C05)",
    tech="TLA+ reference spec Relational.tla explored by TLC (per-transition emission, VIEW hides history; -simulate random walks); every behaviour rendered to SQL and replayed on TurDB, results and full observation compared with the model",
-   text="every INSERT (1 and 2 rows) / UPDATE / DELETE / TRUNCATE transition TLC explores from every reachable table state (with tombstone and reopen history classes in the VIEW) is executed on TurDB: affected-row count, resulting rows and COUNT(*) must equal the model's; a second reference, WideTable.tla, drives statements on runs of ids over tables of 150-400 rows (leaf and interior splits) with affected-row counts and the scan compared with the model after every step",
+   text="every INSERT (1 and 2 rows) / UPDATE / DELETE / TRUNCATE transition TLC explores from every reachable table state (with tombstone and reopen history classes in the VIEW) is executed on TurDB: affected-row count, resulting rows and COUNT(*) must equal the model's; the same behaviours with the last statement issued ... RETURNING id, a, b must return the model's `ret` rows (inserted rows, new images, deleted rows); INSERT .. ON CONFLICT DO NOTHING / (id|a) DO UPDATE SET c = v (USpec: every variant over collisions on the primary key, the UNIQUE key, both, none) is judged the same way; a second reference, WideTable.tla, drives statements on runs of ids over tables of 150-400 rows (leaf and interior splits) with affected-row counts and the scan compared with the model after every step",
    note="bounded domain (3 ids, a in {NULL,1,2}, b in {NULL,0,1,5}); quick replays a stratified seeded sample of the explored transitions plus random walks, thorough replays depth-4 transitions; renderer/normaliser in lib/relational.py trusted; open findings listed in known_findings.json by spec-defined signature"),
  "C06": dict(cat="model_checking", ref="DESIGN.md 3.9, 6 (C06)",
    tech="TLA+ reference spec Relational.tla explored by TLC (per-transition emission, VIEW hides history; -simulate random walks); every behaviour rendered to SQL and replayed on TurDB, results and full observation compared with the model",
-   text="every failing statement TLC generates (all failure kinds incl. k-th row of a multi-row INSERT and multi-row UPDATE) and every statement TurDB rejects: the full observation afterwards must equal the model's pre-statement state; on a table with an AUTO_INCREMENT primary key (schedules of AutoInc.tla) every statement TurDB rejects must leave the table as read back before it",
+   text="every failing statement TLC generates (all failure kinds incl. k-th row of a multi-row INSERT and multi-row UPDATE) and every statement TurDB rejects: the full observation afterwards must equal the model's pre-statement state (also for refused INSERT .. ON CONFLICT statements, USpec); on a table with an AUTO_INCREMENT primary key (schedules of AutoInc.tla) every statement TurDB rejects must leave the table as read back before it",
    note="bounded domain (3 ids, a in {NULL,1,2}, b in {NULL,0,1,5}); quick replays a stratified seeded sample of the explored transitions plus random walks, thorough replays depth-4 transitions; renderer/normaliser in lib/relational.py trusted; open findings listed in known_findings.json by spec-defined signature"),
  "C09": dict(cat="model_checking", ref="DESIGN.md 3.9, 6 (C09)",
    tech="TLA+ reference spec Relational.tla explored by TLC (per-transition emission, VIEW hides history; -simulate random walks); every behaviour rendered to SQL and replayed on TurDB, results and full observation compared with the model",
-   text="TurDB must accept a write iff Relational.tla's TableOk (PRIMARY KEY, UNIQUE with distinct NULLs, NOT NULL, CHECK) holds for the resulting table, for every explored transition, both directions (accepts_invalid / rejects_valid) reported; after every sampled behaviour the constraint state itself is probed: the table must accept exactly the single-row INSERTs the model accepts (Accepts in MC_Relational.tla), so a unique / primary-key entry lost or left behind by an earlier statement shows at once",
+   text="TurDB must accept a write iff Relational.tla's TableOk (PRIMARY KEY, UNIQUE with distinct NULLs, NOT NULL, CHECK) holds for the resulting table, for every explored transition, both directions (accepts_invalid / rejects_valid) reported, including INSERT .. ON CONFLICT DO NOTHING / DO UPDATE whose updated image keeps or breaks each constraint (USpec); after every sampled behaviour the constraint state itself is probed: the table must accept exactly the single-row INSERTs the model accepts (Accepts in MC_Relational.tla), so a unique / primary-key entry lost or left behind by an earlier statement shows at once",
    note="bounded domain (3 ids, a in {NULL,1,2}, b in {NULL,0,1,5}); quick replays a stratified seeded sample of the explored transitions plus random walks, thorough replays depth-4 transitions; renderer/normaliser in lib/relational.py trusted; open findings listed in known_findings.json by spec-defined signature"),
  "C10": dict(cat="model_checking", ref="DESIGN.md 3.9, 6 (C10)",
    tech="TLA+ reference spec Relational.tla explored by TLC (per-transition emission, VIEW hides history; -simulate random walks); every behaviour rendered to SQL and replayed on TurDB, results and full observation compared with the model",
-   text="after every explored transition on a table with primary-key, unique and secondary indexes, every index-path query (point, range, IS NULL) is compared with what the full scan of the same database implies; no model is involved in the comparison, the model only generates the histories; plus a transaction-focused exhaustive exploration (TSpec: ROLLBACK / ROLLBACK TO / RELEASE histories of depth 6-7 on a table with a CREATE INDEX index) and WideTable.tla walks over tables of 150-400 rows (primary-key and secondary-index probes vs the scan after every step)",
+   text="after every explored transition on a table with primary-key, unique and secondary indexes, every index-path query (point, range, IS NULL) is compared with what the full scan of the same database implies; no model is involved in the comparison, the model only generates the histories; plus a transaction-focused exhaustive exploration (TSpec: ROLLBACK / ROLLBACK TO / RELEASE histories of depth 6-7 on a table with a CREATE INDEX index) INSERT .. ON CONFLICT histories (USpec), and WideTable.tla walks over tables of 150-1000 rows (primary-key and secondary-index probes vs the scan after every step; in the DDL variant the indexes on a, pad and a unique-valued column are created and dropped on the populated table)",
    note="bounded domain (3 ids, a in {NULL,1,2}, b in {NULL,0,1,5}); quick replays a stratified seeded sample of the explored transitions plus random walks, thorough replays depth-4 transitions; renderer/normaliser in lib/relational.py trusted; open findings listed in known_findings.json by spec-defined signature"),
 }
 
